@@ -1,13 +1,13 @@
 package main
 
 import (
-	"runtime"
-	"sync/atomic"
-	"sync"
 	"fmt"
 	"io"
 	"reflect"
+	"runtime"
 	"sort"
+	"sync"
+	"sync/atomic"
 
 	tally "github.com/uber-go/tally/v4"
 
